@@ -42,41 +42,38 @@ Proof.
   destruct (uses f (a_wait a)); [destruct (w_kind (a_wait a) =? 4)|]; split; intros; discriminate.
 Qed.
 
-(** the oracle is sound: an accepted observation satisfies the three clauses of the property for every actor *)
+(** nobody goes on normally through an off resource: a live actor blocked on an activity that uses the resource that goes
+    off is killed or served an exception, whatever its host *)
+Theorem no_success_through_off : forall f a, a_alive a = true -> uses f (a_wait a) = true ->
+  expected f a = 1 \/ expected f a = 2 \/ expected f a = 3.
+Proof.
+  intros f a Ha Hu. unfold expected. rewrite Ha, Hu. cbn [negb].
+  destruct (on_failed_host f a); [left; reflexivity|]. destruct (w_kind (a_wait a) =? 4); right; [left|right]; reflexivity.
+Qed.
+
+(** the oracle is sound: an accepted observation satisfies the four clauses of the property for every actor *)
 Definition clause_ok (f : fault) (o : obs) : Prop :=
   let a := o_actor o in
   (a_alive a = true -> on_failed_host f a = true -> o_killed o = true /\ o_failed o = true) /\
   (a_alive a = true -> on_failed_host f a = false -> uses f (a_wait a) = true ->
      (w_kind (a_wait a) = 4 -> o_exc o = 1) /\ (w_kind (a_wait a) <> 4 -> o_exc o = 2)) /\
-  (w_kind (o_end o) <> 0 -> uses f (o_end o) = false).
+  (w_kind (o_end o) <> 0 -> uses f (o_end o) = false) /\
+  (a_alive a = true -> uses f (a_wait a) = true -> o_done o = false).
 
 Lemma verdict_sound : forall f o, verdict f o = 0 -> clause_ok f o.
 Proof.
   intros f o. unfold verdict, clause_ok. cbn zeta.
-  destruct (uses f (o_end o)) eqn:Ee; cbn [andb].
-  - destruct (w_kind (o_end o) =? 0) eqn:E0; cbn [negb]; [|discriminate].
-    destruct (a_alive (o_actor o)) eqn:Ea; cbn [negb].
-    2:{ intros _. repeat split; intros; try discriminate; lia. }
-    destruct (on_failed_host f (o_actor o)) eqn:Eh.
-    + destruct (o_killed o); cbn [negb]; [|discriminate]. destruct (o_failed o); cbn [negb]; [|discriminate].
-      intros _. repeat split; intros; try discriminate; try lia.
-    + destruct (uses f (a_wait (o_actor o))) eqn:Eu.
-      * destruct (o_exc o =? 0) eqn:Ex; [discriminate|].
-        destruct (w_kind (a_wait (o_actor o)) =? 4) eqn:E4.
-        -- destruct (o_exc o =? 1) eqn:E1; [|discriminate]. intros _. repeat split; intros; try discriminate; lia.
-        -- destruct (o_exc o =? 2) eqn:E2; [|discriminate]. intros _. repeat split; intros; try discriminate; lia.
-      * intros _. repeat split; intros; try discriminate; lia.
-  - destruct (a_alive (o_actor o)) eqn:Ea; cbn [negb].
-    2:{ intros _. repeat split; intros; try discriminate; reflexivity. }
-    destruct (on_failed_host f (o_actor o)) eqn:Eh.
-    + destruct (o_killed o); cbn [negb]; [|discriminate]. destruct (o_failed o); cbn [negb]; [|discriminate].
-      intros _. repeat split; intros; try discriminate; reflexivity.
-    + destruct (uses f (a_wait (o_actor o))) eqn:Eu.
-      * destruct (o_exc o =? 0) eqn:Ex; [discriminate|].
-        destruct (w_kind (a_wait (o_actor o)) =? 4) eqn:E4.
-        -- destruct (o_exc o =? 1) eqn:E1; [|discriminate]. intros _. repeat split; intros; try discriminate; try lia; reflexivity.
-        -- destruct (o_exc o =? 2) eqn:E2; [|discriminate]. intros _. repeat split; intros; try discriminate; try lia; reflexivity.
-      * intros _. repeat split; intros; try discriminate; reflexivity.
+  destruct (uses f (o_end o)) eqn:Ee; destruct (w_kind (o_end o) =? 0) eqn:E0; cbn [andb negb]; try discriminate;
+  (destruct (a_alive (o_actor o)) eqn:Ea; cbn [negb];
+   [|intros _; repeat split; intros; try discriminate; try reflexivity; lia]);
+  (destruct (uses f (a_wait (o_actor o))) eqn:Eu; destruct (o_done o) eqn:Ed; cbn [andb]; try discriminate);
+  (destruct (on_failed_host f (o_actor o)) eqn:Eh;
+   [destruct (o_killed o); cbn [negb]; [|discriminate]; destruct (o_failed o); cbn [negb]; [|discriminate];
+    intros _; repeat split; intros; try discriminate; try reflexivity; lia|]);
+  try (intros _; repeat split; intros; try discriminate; try reflexivity; lia);
+  (destruct (o_exc o =? 0) eqn:Ex; [discriminate|]; destruct (w_kind (a_wait (o_actor o)) =? 4) eqn:E4;
+   [destruct (o_exc o =? 1) eqn:E1; [|discriminate]|destruct (o_exc o =? 2) eqn:E2; [|discriminate]];
+   intros _; repeat split; intros; try discriminate; try reflexivity; lia).
 Qed.
 
 Theorem oracle_sound : forall f l, failure_log_ok f l = true -> Forall (clause_ok f) l.
@@ -85,13 +82,22 @@ Proof.
   apply verdict_sound. specialize (H o Ho). lia.
 Qed.
 
+(** the oracle rejects every observation in which an activity using the off resource completed successfully *)
+Theorem oracle_rejects_success_through_off : forall f o, a_alive (o_actor o) = true -> uses f (a_wait (o_actor o)) = true ->
+  o_done o = true -> verdict f o <> 0.
+Proof.
+  intros f o Ha Hu Hd. unfold verdict. cbn zeta. rewrite Ha, Hu, Hd. cbn [negb andb].
+  destruct (uses f (o_end o) && negb (w_kind (o_end o) =? 0)); discriminate.
+Qed.
+
 (** what the model predicts is accepted by the oracle (so the two agree, and the oracle is not vacuous) *)
 Definition obs_of_model (f : fault) (a : actor) : obs :=
-  mkObs a (expected f a =? 1) (expected f a =? 1) (if expected f a =? 2 then 1 else if expected f a =? 3 then 2 else 0) no_wait.
+  mkObs a (expected f a =? 1) (expected f a =? 1) (if expected f a =? 2 then 1 else if expected f a =? 3 then 2 else 0) false no_wait.
 Theorem model_passes_oracle : forall f l, failure_log_ok f (map (obs_of_model f) l) = true.
 Proof.
   intros f l. unfold failure_log_ok. rewrite forallb_forall. intros o Ho. apply in_map_iff in Ho. destruct Ho as [a [<- _]].
-  unfold verdict, obs_of_model. cbn [o_actor o_end o_killed o_failed o_exc]. rewrite uses_no_wait. cbn [andb].
+  unfold verdict, obs_of_model. cbn [o_actor o_end o_killed o_failed o_exc o_done]. rewrite uses_no_wait. cbn [andb].
+  rewrite Bool.andb_false_r.
   unfold expected. destruct (a_alive a); cbn [negb]; [|reflexivity].
   destruct (on_failed_host f a); [reflexivity|]. destruct (uses f (a_wait a)); [|reflexivity].
   destruct (w_kind (a_wait a) =? 4); reflexivity.
